@@ -24,6 +24,7 @@ REQUIRED_THEOREMS = [
     "frame_count_general", "storage_frame_count", "recorded_frames_are_calls",
     "stop_serves_all_due", "final_stop_serves_all_due", "stop_ends_at_stop_time", "stop_reason_reported",
     "all_finalized", "corner_scheduled_time_at_t_end_missed", "extra_frame_not_at_final_time",
+    "adaptive_served_exactly", "adaptive_two_trackers_served_early",
 ]
 RULE = ("pairs of runs (stop-free, then with injected stop requests placed on calls of the stop-free trace) "
         "with 1-4 trackers (callback / StorageTracker+MemoryStorage / DataTracker; constant, fixed, logarithmic, "
@@ -43,7 +44,8 @@ MSGS = ["", "", "done", "converged", "Field was not finite"]
 
 
 def gen_case(rng, hist, exec_mode, max_steps):
-    numbers = rng.choice(["Q", "F"])
+    # under JIT only dyadic numbers have a bit-exact reference (see ctrl.resolve): favour them there
+    numbers = rng.choice(["Q", "F"]) if exec_mode != "numba-J" else rng.choice(["Q", "Q", "Q", "F"])
     dt, t0, t1, N, delta = ctrl.gen_base(rng, numbers, hist, max_steps)
     eq = rng.choice(["one", "time"])
     solver = "euler" if rng.random() < 0.85 else rng.choice(ctrl.FIXED_SOLVERS[1:])
@@ -149,6 +151,85 @@ def corner_probe(ctx):
                                   "corner": "t_end = t_final + 1e-6*dt"})
 
 
+# ------------------------------------------------------------------------------------------
+# steppers that reach their target exactly: ScipySolver(dt) against the model `runExactSpec`, adaptive
+# Euler / Runge-Kutta monitor-only
+def gen_exact_case(rng, hist, solver):
+    numbers = rng.choice(["Q", "F"])
+    dt, t0, t1, N, delta = ctrl.gen_base(rng, numbers, lambda *a: None, 30)
+    trs = []
+    n = rng.choice([1, 1, 2, 3]) if solver == "scipy" else 1
+    for _ in range(n):
+        while True:
+            sch = ctrl.gen_sched(rng, numbers, dt, t0, t1, lambda *a: None, adversarial=False)
+            if sch["kind"] == "constant" and sch["dt"] >= 0.3 * dt:
+                break
+            if sch["kind"] == "fixed" or (sch["kind"] == "logarithmic" and sch["dt_initial"] >= 0.3 * dt):
+                if solver == "scipy":
+                    break
+        if solver != "scipy":
+            sch["t_start"] = None
+        trs.append({"kind": rng.choice(["callback", "storage", "data"]), "sched": sch, "stops": []})
+        hist("exact-stepper tracker", f"{trs[-1]['kind']}/{sch['kind']}")
+    hist("exact-stepper solver", solver)
+    hist("exact-stepper n_trackers", n)
+    case = {"numbers": numbers, "dt": dt, "t_start": t0, "t_end": t1, "u0": 0.5 if numbers == "Q" else 0.1,
+            "eq": "one" if solver == "scipy" else rng.choice(["one", "time"]), "solver": solver, "backend": "numpy",
+            "jit": False, "N": N, "delta": delta, "cells": 1, "trackers": trs, "stepper": "exact"}
+    if solver != "scipy":
+        case["adaptive"] = True
+        case["round_off"] = True  # the adaptive stepper's last step is `t_end - t`: target reached to round-off
+    return case
+
+
+ADAPTIVE_PROBE = [
+    ("scipy", False, 0.1, [1.0, 0.97]),
+    ("runge-kutta", True, 0.1, [1.0, 0.97]),
+    ("euler", True, 0.25, [1.0, 0.9]),
+]
+
+
+def exact_leg(ctx, batch, pending):
+    rng = ctx.rng
+    n_scipy, n_adapt = ctx.budget(150, 3000), ctx.budget(40, 600)
+    for k in range(n_scipy + n_adapt):
+        solver = "scipy" if k < n_scipy else rng.choice(["euler", "runge-kutta"])
+        case = gen_exact_case(rng, ctx.hist, solver)
+        real = ctrl.execute(case)
+        if not real.get("error") and real["trace"] and rng.random() < 0.4:
+            # second pass with stop requests placed on the stop-free trace
+            case = place_stops(rng, lambda *a: None, case, real)
+            real = ctrl.execute(case)
+        ok = not real.get("error")
+        ctx.count(case, nontrivial=ok and len(real["trace"]) >= 2, leg="exact-stepper/" + solver)
+        if not ok:
+            ctx.disagree("correspondence", case, "run completes", real["error"], "real run raised on a valid case")
+            continue
+        ctx.monitor_evals += 1
+        for what, obs, exp in ctrl.monitor_exact(case, real):
+            ctx.monitor_fail("exact-stepper", case, obs, exp, what, key={"what": what.split(" of ")[0][:60]})
+        if solver == "scipy":
+            ctrl.check_run(ctx, case, real, batch, pending)
+    # the property text says "exactly at it for adaptive steppers": strict monitor on two-tracker probes
+    for solver, adaptive, dt, intervals in ADAPTIVE_PROBE:
+        case = {"numbers": "F", "dt": dt, "t_start": 0.0, "t_end": 3.0, "u0": 0.0, "eq": "time" if adaptive else "one",
+                "solver": solver, "backend": "numpy", "jit": False, "N": None, "delta": 0.0, "cells": 1,
+                "stepper": "exact", "adaptive": adaptive, "round_off": adaptive,
+                "trackers": [{"kind": "storage", "sched": {"kind": "constant", "dt": D, "t_start": None}, "stops": []}
+                             for D in intervals]}
+        real = ctrl.execute(case)
+        ctx.count(case, nontrivial=True, leg="adaptive-probe")
+        ctx.hist("adaptive probe", f"{solver} adaptive={adaptive} two trackers")
+        if real.get("error"):
+            ctx.disagree("correspondence", case, "run completes", real["error"], "adaptive probe raised")
+            continue
+        ctx.monitor_evals += 1
+        for what, obs, exp in ctrl.monitor_exact(case, real, strict_exact=True):
+            ctx.monitor_fail("adaptive-probe", case, {"observed": obs, "times": real["times"]}, exp, what,
+                             key={"what": "adaptive stepper serves each scheduled time exactly at it",
+                                  "corner": "another tracker due up to dt/2 earlier"})
+
+
 def monitors(ctx, case, real):
     if isinstance(real, str) or real.get("error"):
         return
@@ -160,7 +241,7 @@ def monitors(ctx, case, real):
 def run(ctx):
     from harness.common.lean import LeanBatch
     rng = ctx.rng
-    plan = {"numpy": ctx.budget(500, 6000), "numba-S": ctx.budget(80, 900), "numba-J": ctx.budget(16, 150)}
+    plan = {"numpy": ctx.budget(600, 18000), "numba-S": ctx.budget(90, 3000), "numba-J": ctx.budget(12, 320)}
     first = {m: [[gen_case(rng, ctx.hist, m, 100 if m != "numba-J" else 40)] for _ in range(n)] for m, n in plan.items()}
     res1 = ctrl.exec_groups(ctx, first)
     second = {m: [] for m in plan}
@@ -192,6 +273,7 @@ def run(ctx):
                 ctrl.check_run(ctx, case, real, batch, pending)
                 monitors(ctx, case, real)
     corner_probe(ctx)
+    exact_leg(ctx, batch, pending)
     answers = batch.run()
     batch2 = LeanBatch(ctx.workdir)
     retry = ctrl.resolve(ctx, pending, answers, batch2)
@@ -244,7 +326,11 @@ def replay(ctx, rep):
     print("trace:", real["trace"][:60])
     print("steps", real["steps"], "t_final", real["t_final"], "state", real["state"], "stop_reason",
           real["stop_reason"], "finalized", real["finalized"])
-    bad = ctrl.monitor_trackers(case, real)
+    if case.get("stepper") == "exact":
+        bad = ctrl.monitor_exact(case, real, strict_exact=rep.get("leg") == "adaptive-probe")
+        print("recorded times:", real["times"])
+    else:
+        bad = ctrl.monitor_trackers(case, real)
     for b in bad:
         print("monitor:", b)
     if not bad:
